@@ -164,7 +164,14 @@ def gen_script(rng, tier, force=None):
         encs.append(0)
     lines.append("enc " + " ".join(str(e) for e in encs))
     if encname == "corre" and rng.random() < 0.3:
-        lines.append("cfg corre %d %d" % (rng.choice([1, 7, 16, 48, 255]), rng.choice([1, 7, 16, 48, 255])))
+        mw_, mh_ = rng.choice([1, 7, 16, 48, 255]), rng.choice([1, 7, 16, 48, 255])
+        # CoRRE sends ceil(w/mw)*ceil(h/mh) rectangles; more than 65535 in one update do not fit the 16-bit
+        # count (known finding c03-nrects-16bit / c01-nrects-16bit, replayed from the corpus): generated
+        # scripts stay well below.  (Raw/RRE/Hextile send one rectangle per region rectangle, Zlib/Ultra one per
+        # >= 32768-pixel slab, Tight at most a few per region rectangle or a LastRect-terminated list.)
+        if ((W + mw_ - 1) // mw_) * ((H + mh_ - 1) // mh_) > 30000:
+            mw_, mh_ = 48, 48
+        lines.append("cfg corre %d %d" % (mw_, mh_))
     nupd = force.get("nupd", rng.choice([3, 3, 4, 6]) if not big else 3)
     for u in range(nupd):
         if u == 0 or rng.random() < 0.7:
@@ -681,6 +688,16 @@ def process(args):
                 snaps.append((int(p[1]), int(p[2]), int(p[3]), int(p[4]), bytes.fromhex(p[5])))
         if "copyregion-nonempty" in info:
             fail("exact", "unexpected copy region", op)
+        # known finding: an update that needs more than 65535 rectangles announces the count modulo 65536
+        nrects16 = None
+        if t[0] == "req" and intended == 4 and snaps:
+            needed = sum(((s_[2] + corre_max[0] - 1) // corre_max[0]) * ((s_[3] + corre_max[1] - 1) // corre_max[1]) for s_ in snaps)
+            if needed > 65535 and len(buf) >= 4 and buf[0] == 0 and struct.unpack(">H", buf[2:4])[0] == needed % 65536:
+                nrects16 = needed
+        if nrects16 is not None:
+            fail("oracle", "FramebufferUpdate of %d CoRRE rectangles announces %d (16-bit rectangle count): undecodable"
+                 % (nrects16, nrects16 % 65536), op, finding="c01-nrects-16bit")
+            return res
         try:
             msgs = D.parse_server_stream(buf, fmt, conn, codec.unlzo, codec.unjpeg, res["stats"],
                                          one_update=(t[0] == "req"))
@@ -1014,6 +1031,11 @@ def run(ctx):
         for f in corpus:
             if f.endswith(".json"):
                 rec = json.load(open(os.path.join(common.VERIF, "corpus", "C01", f)))
+                # the witness of a known finding is replayed only once known_findings.json lists it for C01
+                # (it prints the KNOWN-FINDING line); before that it would be an unexplained alarm
+                kf = rec.get("known_finding")
+                if kf and kf not in [k["id"] for k in ctx.known if k.get("status") == "known"]:
+                    continue
                 cases.append(("\n".join(rec["script"]) + "\n", rec["meta"]))
         n = 500 if ctx.tier == "quick" else 8000
         # every encoding x a spread of formats first (stratified), then free random scripts
